@@ -7,11 +7,13 @@ package main
 
 import (
 	"fmt"
+	"os"
 	"reflect"
 	"sort"
 	"unsafe"
 
 	"github.com/philpearl/avro"
+	"github.com/unravelin/null/v5"
 )
 
 func init() {
@@ -115,7 +117,74 @@ func loadVectors(path string) (map[string][]vector, []string, error) {
 	return bySchema, order, nil
 }
 
+// corpus: the two checked-in files written by BigQuery (an implementation that shares no code with the
+// library or with this harness), read into the target types the repository's tests use and into variations
+type corpusObj struct {
+	Typ  string  `json:"typ,omitempty"`
+	Size float64 `json:"size,omitempty"`
+}
+type corpusEntry struct {
+	Name   string      `json:"name,omitempty"`
+	Number int64       `json:"number"`
+	Owns   []corpusObj `json:"owns,omitempty"`
+}
+type corpusEntryPtr struct {
+	Name   *string `json:"name"`
+	Number *int32  `json:"number"`
+	Owns   []*struct {
+		Size *float64    `json:"size"`
+		Typ  null.String `json:"typ"`
+	} `json:"owns"`
+}
+type corpusNull struct {
+	String null.String `json:"string,omitempty"`
+	Int    null.Int    `json:"int,omitempty"`
+	Bool   null.Bool   `json:"bool,omitempty"`
+	Float  null.Float  `json:"float,omitempty"`
+}
+type corpusNullPlain struct {
+	Float  *float64 `json:"float"`
+	String string   `json:"string"`
+	Int    int64    `json:"int"`
+	Bool   *bool    `json:"bool"`
+}
+
+func driveCorpus(c *driverCtx, prop string) {
+	repo := os.Getenv("VERIF_REPO")
+	if repo == "" {
+		repo = "/repo"
+	}
+	files := []struct {
+		path    string
+		targets []reflect.Type
+	}{
+		{repo + "/testdata/avro1", []reflect.Type{reflect.TypeOf(corpusEntry{}), reflect.TypeOf(corpusEntryPtr{}), reflect.TypeOf(struct{}{})}},
+		{repo + "/null/testdata/nullavro", []reflect.Type{reflect.TypeOf(corpusNull{}), reflect.TypeOf(corpusNullPlain{}), reflect.TypeOf(struct{}{})}},
+	}
+	for _, f := range files {
+		b, err := os.ReadFile(f.path)
+		if err != nil {
+			continue
+		}
+		facts := fileFacts(b, "null")
+		for ti, t := range f.targets {
+			r := readBack(t, b, readerKinds[ti%4], ti%2 == 0, -1, nil)
+			ev := map[string]any{"op": "corpus_read", "mode": prop, "file": byteList(b), "target": projectType(t), "targetName": t.String(),
+				"delivered": orEmpty(r.delivered), "recheck": orEmpty(r.recheck), "err": errString(r.err), "panic": r.panicked}
+			for k, v := range facts {
+				ev[k] = v
+			}
+			c.rec.NewCase()
+			c.rec.Emit(fmt.Sprintf("%s|corpus|%s|%s", prop, f.path[len(repo):], t.String()), ev)
+			c.rec.Realised("corpus-file")
+		}
+	}
+}
+
 func driveVectors(c *driverCtx, prop string) error {
+	if prop == "C03" {
+		driveCorpus(c, prop)
+	}
 	if c.cases == "" {
 		return fmt.Errorf("%s needs TLC-generated vectors (-cases)", prop)
 	}
